@@ -22,10 +22,14 @@ def parse_nested(txt):
     return json.loads(body)
 
 
+def coq_s(x):
+    return '"%s"%%string' % x.replace('"', '""')
+
+
 class C10(Prop):
     pid = "C10"
     props_file = "Props/C10.v"
-    model_targets = ["theories/Sessions/SessionsCheck.vo"]
+    model_targets = ["theories/Sessions/SessionsCheck.vo", "theories/Sessions/Writer.vo"]
     technique = "Coq invariant proof of session isolation for every request history and cache limit, parametric in the cookie jar (a jar is the list of operations applied to it) + regenerated source fact + differential run of the real SessionHandler, with the cookies of each modelled session evaluated on an independent net/http/cookiejar; concurrent run under the race detector"
     level_text = ("C10_isolation proves for every history of requests over any number of sessions and every cache limit that the cookies restored into a request come only from Set-Cookie operations performed in the session whose cookie it presents, and that a request without session cookie "
                   "gets nothing restored - independently of what a cookie jar does with the operations; C10_session_cookie proves that the session cookie is issued exactly to clients presenting none; C10_window_complete proves completeness inside the window: for every cache limit and every history in which clients present only issued session cookies, as long as a session has always been among the K most recently used ones since it first appeared, a request presenting it is given exactly the operations of all earlier requests of that session, in order (C10_outside_window_cookies_lost shows the bound is sharp). The real handler is run on generated histories (sessions x hosts x paths; set / overwrite / delete / expire, "
@@ -119,6 +123,10 @@ class C10(Prop):
         for h in obs["histories"]:
             for i, (rq, o) in enumerate(zip(h["reqs"], h["obs"])):
                 rp = {"driver": "TestVerifC10: SessionHandler around a scripted backend", "history": h["index"], "cache_limit": h["limit"], "request_index": i, "requests_so_far": h["reqs"][:i + 1], "observed": o}
+                if o.get("panic"):
+                    res.append(("handler-panicked", "the session handler panicked (%s) on a request presenting %s; in the agent that ends the process and every session with it" % (
+                        o["panic"][:120], "no session cookie" if rq["use"] == -1 else "a made-up session cookie value" if rq["use"] == -2 else "a session cookie"), rp))
+                    continue
                 names = []
                 for sc in o["client_set"]:
                     names.append(sc.split("=", 1)[0])
@@ -205,7 +213,21 @@ class C10(Prop):
             if want != got:
                 mism.append(("SessionsCheck.eval_history+jareval", "history %d request %d: the backend saw cookies %r; the client's own cookies followed by an independent jar fed with the model's operations %r give %r" % (h["index"], i, got, consulted, want),
                              {"history": h["index"], "limit": h["limit"], "reqs": h["reqs"][:i + 1], "observed_backend_cookies": got, "expected": want, "model_consulted_ops": consulted}))
-        return mism, len(where), {"coqc_s": round(info, 2) if isinstance(info, float) else info, "requests": len(where)}
+        # the response writer at header level (Sessions/Writer.v) on the real chain's interim cases
+        witems, wrows = [], []
+        for r in obs.get("interim") or []:
+            b = r["backend"]
+            if r.get("err"):
+                continue
+            cookies = [b["cookie"]] if b.get("cookie") else []
+            witems.append("sw_case false %s %d %s %d %d" % (C.llit(str(c) for c in (b.get("interim") or [])), b["status"], C.llit(coq_s(c) for c in cookies), r["status"], len(r.get("client_set_cookie_names") or [])))
+            wrows.append(r)
+        bad, wdt = C.eval_code_items(ctx.work, "cases_c10_writer", ["From Coq Require Import ZArith List Bool String.", "From IP Require Import Lib.Header Sessions.Writer Lib.Util.", "Import ListNotations.", "Open Scope Z_scope."], witems)
+        if bad is None:
+            return [("cases_c10_writer.v (model evaluation)", "coqc failed: " + wdt[-600:], {})], len(where), {}
+        for idx, code in bad:
+            mism.append(("Writer.sw_case", "through the real chain the client saw %s than the session response writer model gives" % ("another status" if code == 1 else "other Set-Cookie fields"), wrows[idx]))
+        return mism, len(where) + len(witems), {"coqc_s": round(info, 2) if isinstance(info, float) else info, "requests": len(where), "writer_cases": len(witems)}
 
     def search(self, ctx, obs, broken):
         # a correspondence break whose observation shows cookies of another session or lost cookies is a concrete violation
